@@ -36,8 +36,8 @@ from . import core, devices
 # after the Euler step).  Which one the tree under test implements is decided by TLC
 # (trace validation under both), and that mechanism is then model-checked.
 CODE = dict(MMask=True, MBothHalves=True, MFreshLinks=True, MFixPsi=True)
-PINNED = dict(MTrigger="prev_close", MReimpose=False, MReimposeOnRetry=True, **CODE)
-REPAIRED = dict(MTrigger="exact", MReimpose=True, MReimposeOnRetry=True, **CODE)
+PINNED = dict(MTrigger="prev_close", MReimpose="never", MReimposeOnRetry=True, **CODE)
+REPAIRED = dict(MTrigger="exact", MReimpose="configured", MReimposeOnRetry=True, **CODE)
 
 INV_OPS = ["TypeOK", "RefreshEqualsRebuild", "FixedRowsAreIdentity", "NoOtherRowPinned", "LapHermitianOnFreeBlock"]
 INV_C10_STEP = ["TypeOK", "RefreshEqualsRebuild", "OperatorsMatchLatestA", "NoScreeningNoInduced"]
@@ -45,12 +45,12 @@ INV_C06_OPS = ["TypeOK", "FixedRowsAreIdentity", "NoOtherRowPinned"]
 INV_C06_STEP = ["TypeOK", "FixedRowsAreIdentity", "NoOtherRowPinned", "PinnedSitesStayPinned", "UnsetMeansFree"]
 
 OPS_DEFAULT = dict(Insts=["strip6", "fan5"], Modes=["none", "terminals", "disabled"], QIds=[1, 2, 3, 4], MaxCalls=6,
-                   Scrs=[False], Dyns=[False], Vs=["zero"], MaxSteps=0, MaxIter=0, AMax=3, IMax=3)
+                   Scrs=[False], Dyns=[False], Vs=["zero"], Seeds=["configured"], MaxSteps=0, MaxIter=0, AMax=3, IMax=3)
 STEP_DEFAULT = dict(Insts=["fan5"], Modes=["none", "terminals", "disabled"], QIds=[1], MaxCalls=0,
-                    Scrs=[False, True], Dyns=[False, True], Vs=["zero", "nonzero", "none"],
+                    Scrs=[False, True], Dyns=[False, True], Vs=["zero", "nonzero", "none"], Seeds=["configured", "other"],
                     MaxSteps=3, MaxIter=1, AMax=3, IMax=3)
 TRACE_BOUNDS = dict(Insts=["strip6", "fan5"], Modes=["none", "terminals", "disabled"], QIds=[1], MaxCalls=10 ** 6,
-                    Scrs=[False, True], Dyns=[False, True], Vs=["zero", "nonzero", "none"],
+                    Scrs=[False, True], Dyns=[False, True], Vs=["zero", "nonzero", "none"], Seeds=["configured", "other"],
                     MaxSteps=10 ** 6, MaxIter=10 ** 6, AMax=250, IMax=250)
 
 
@@ -61,7 +61,7 @@ def _set(xs):
 def cfg_text(bounds, mech, invariants, spec, view=None, extra=""):
     b = bounds
     lines = ["CONSTANTS"]
-    for k in ("Insts", "Modes", "QIds", "Scrs", "Dyns", "Vs"):
+    for k in ("Insts", "Modes", "QIds", "Scrs", "Dyns", "Vs", "Seeds"):
         lines.append(f" {k} = {_set(b[k])}")
     for k in ("MaxCalls", "MaxSteps", "MaxIter", "AMax", "IMax"):
         lines.append(f" {k} = {b[k]}")
@@ -210,7 +210,7 @@ def replay_ops(tdgl, a, tmp):
             ops.set_link_exponents(pots[qid])
             evs.append(_ops_event(tdgl, ops, pots[qid], qid, fixed, first,
                                   scale_lap=d["area"], scale_grad=d["len"]))
-        out.append(dict(level="ops", inst=d["name"], mode=a["mode"], scr=False, dyn=False, v="zero",
+        out.append(dict(level="ops", inst=d["name"], mode=a["mode"], scr=False, dyn=False, v="zero", seed="configured",
                         exact=True, driven=False, ev=evs))
     return out
 
@@ -244,7 +244,7 @@ def replay_ops_generated(tdgl, a, tmp):
                 first = ops.psi_gradient is None
                 ops.set_link_exponents(pots[qid])
                 evs.append(_ops_event(tdgl, ops, pots[qid], qid, fixed, first))
-            out.append(dict(level="ops", inst="strip6", mode=mode, scr=False, dyn=False, v="zero",
+            out.append(dict(level="ops", inst="strip6", mode=mode, scr=False, dyn=False, v="zero", seed="configured",
                             exact=False, driven=False, ev=evs, sites=int(len(mesh.sites))))
     return out
 
@@ -328,6 +328,22 @@ def natural_run(tdgl, a, tmp):
     else:
         kw["applied_vector_potential"] = a.get("field", 0.0)
 
+    # seed chain: unobserved runs with other terminal values, each seeded from the previous one; the observed run
+    # starts from the last one (seed_solution).  Same device, drive and timing; only terminal_psi differs.
+    seed = None
+    for n, stp in enumerate(a.get("seed_chain") or []):
+        sv = None if stp == "none" else (complex(stp[0], stp[1]) if stp[1] else float(stp[0]))
+        so = tdgl.SolverOptions(**dict(timing, solve_time=a.get("seed_time", 8 * dt)), save_every=4, progress_interval=10 ** 9,
+                                pause_on_interrupt=False, output_file=os.path.join(work, f"seed{n}.h5"),
+                                include_screening=False, field_units="mT", current_units="uA", terminal_psi=sv)
+        seed = tdgl.solve(dev, so, seed_solution=seed, **kw)
+    if seed is not None:
+        kw["seed_solution"] = seed
+        psi_start = np.array(seed.tdgl_data.psi, copy=True)
+        seed_cls = "free" if v is None else ("eq" if _term_class(psi_start, tsites, v) == "eq" else "seed")
+    else:
+        psi_start, seed_cls = None, None
+
     ev = []
     st = dict(in_update=False, applied=None, induced=None, level=0, seen={}, pending=None, psi_prev=None, psi0=None,
               nonterm_evolved=False, term_evolved=False, max_stale=0.0, first_stale=None, step=-1, unreadable=None,
@@ -358,8 +374,9 @@ def natural_run(tdgl, a, tmp):
         ops = self.operators
         eq, cls, other = ops_flags(ops, st["applied"])
         ev.append({"ev": "ctor", "fresh": bool(eq and np.array_equal(np.asarray(ops.link_exponents), st["applied"])),
-                   "pinrows": cls, "other": other, "term": _term_class(self.psi_init, tsites, v)})
-        st["psi0"] = np.array(self.psi_init, copy=True)
+                   "pinrows": cls, "other": other,
+                   "term": seed_cls if seed_cls is not None else _term_class(self.psi_init, tsites, v)})
+        st["psi0"] = psi_start if psi_start is not None else np.array(self.psi_init, copy=True)
         st["psi_prev"] = st["psi0"]
 
     def w_field(self, time):
@@ -491,6 +508,9 @@ def natural_run(tdgl, a, tmp):
     classes, worst = [], 0.0
     with h5py.File(out, "r") as f:
         for key in sorted(f["data"], key=int):
+            # frame 0 of a seeded run is the seed state, written before any update: the clause starts at step 1
+            if seed is not None and int(f["data"][key].attrs["step"]) < 1:
+                continue
             psi = np.array(f["data"][key]["psi"])
             classes.append(_term_class(psi, tsites, v))
             if v is not None and len(tsites):
@@ -506,10 +526,10 @@ def natural_run(tdgl, a, tmp):
     if mode == "none":
         vcls = "zero"
     return dict(level="step", inst="fan5", mode=mode, scr=bool(opts.include_screening), dyn=ramp is not None, v=vcls,
-                exact=False, driven=bool(a.get("field") or a.get("current")), ev=ev,
+                seed=("other" if seed_cls == "seed" else "configured"), exact=False, driven=bool(a.get("field") or a.get("current")), ev=ev,
                 info=dict(sites=nsites, terminal_sites=int(len(tsites)), frames=len(classes), steps=nfin,
                           max_relative_staleness=st["max_stale"], first_stale_step=st["first_stale"],
-                          max_terminal_deviation_in_frames=worst, retried_steps=st["retried_steps"],
+                          max_terminal_deviation_in_frames=worst, seeded=seed is not None, retried_steps=st["retried_steps"],
                           refused_evaluations=st["refusals"], max_terminal_deviation_after_update=st["max_dev_after_update"],
                           max_terminal_deviation_after_retried_update=st["max_dev_after_retried_update"], input=a))
 
@@ -576,7 +596,7 @@ def validate(ctx, traces, mech, invariants, what, count_impl=True, parts=4):
     ctx.cov["models"].append({"model": f"OpsCacheTrace[{what}] (trace validation)", "traces": len(traces),
                               "accepted": len(accepted), "traces_reaching_a_false_clause": len(bad),
                               "distinct_states": distinct, "states_generated": generated, "wall_s": round(wall, 2),
-                              "mechanism": {k: mech[k] for k in ("MTrigger", "MReimpose")}})
+                              "mechanism": {k: mech[k] for k in ("MTrigger", "MReimpose", "MReimposeOnRetry")}})
     ctx.cov["states"] += distinct
     ctx.cov["transitions"] += generated
     if count_impl:
